@@ -979,12 +979,23 @@ class ExtraOps:
                 if s1 != s2:
                     self.violate("compile_not_repeatable", {"first": s1[:300], "second": s2[:300]}, entry=t)
                 r1 = w.run_sql(t.rel)
-                r2 = w.run_sql(t.rel)
             else:
                 r1 = [{c.qualified_name: v for c, v in r.items()} for r in t.rel.engine.execute(t.rel)]
-                r2 = [{c.qualified_name: v for c, v in r.items()} for r in t.rel.engine.execute(t.rel)]
         except Exception as e:  # noqa
             self.on_exec_exception(t, e)
+            return
+        try:
+            if isinstance(t.rel.engine, sql.Engine):
+                r2 = w.run_sql(t.rel)
+            else:
+                r2 = [{c.qualified_name: v for c, v in r.items()} for r in t.rel.engine.execute(t.rel)]
+        except Exception as e:  # noqa
+            from .execu import is_injected
+
+            if w.fault.fired and is_injected(e, w.fault.fired):
+                return
+            # the first evaluation succeeded: the second, of the very same relation, must too
+            self.violate("execute_not_repeatable", {"first": r1[:6], "second": "raised"}, entry=t, exc=e)
             return
         self.stats["twice"] += 1
         after = {k: e.relation_name_counter for k, e in sorted(w.engines.items())}
